@@ -99,6 +99,25 @@ func (p *IdentityProvider) ssoHandleFunc(w http.ResponseWriter, r *http.Request)
 		},
 	)
 
+	// a signature that does not travel the way the used binding defines is never verified,
+	// so a request carrying one is refused instead of being accepted with the signature ignored
+	checkerInstance.WithLogicStep(
+		func() error {
+			if authRequestForm.Binding == RedirectBinding && signaturePostProvided(func() *xml_dsig.SignatureType { return authNRequest.Signature })() {
+				err = fmt.Errorf("enveloped signature is not allowed with the redirect binding")
+				return err
+			}
+			if authRequestForm.Binding == PostBinding && authRequestForm.Sig != "" {
+				err = fmt.Errorf("signature parameter is not allowed with the post binding")
+				return err
+			}
+			return nil
+		},
+		func() {
+			response.sendBackResponse(r, w, response.makeFailedResponse(StatusCodeRequestDenied, fmt.Errorf("failed to verify signature: %w", err).Error(), p.TimeFormat))
+		},
+	)
+
 	// get persisted service provider from issuer out of the request
 	checkerInstance.WithLogicStep(
 		func() error {
